@@ -560,7 +560,7 @@ def run(ctx):
             t0 = float(gen.pick(rng, [0.0, 0.5, -1.0]))
         return out
 
-    for it in range(ctx.n(5, 40)):
+    for it in range(ctx.n(6, 40)):
         L.release()
         cfg, d, order = random_cfg(ctx, it, ["filter", "fixedinterval"])
         count_cfg(ctx, cfg, "ts0", d)
@@ -578,7 +578,7 @@ def run(ctx):
         count_cfg(ctx, cfg, "adaptive", d)
         ts0_adaptive_pair(ctx, cfg, d, field, u0s, t0, save_at, tol, bool(rng.random() < 0.5))
     lap("adaptive dense-iso")
-    for it in range(ctx.n(2, 16)):
+    for it in range(ctx.n(3, 16)):
         L.release()
         cfg, d, order = random_cfg(ctx, it + 1, ["filter", "fixedinterval"], qmax=5)
         d = max(d, 2)
@@ -588,7 +588,7 @@ def run(ctx):
         for field, u0s, t0, hs in variations(cfg, d, order, "decoupled", 2, 6):
             bd_ts1_decoupled(ctx, cfg, d, field, u0s, t0, hs)
     lap("bd ts1 decoupled")
-    for it in range(ctx.n(2, 16)):
+    for it in range(ctx.n(3, 16)):
         L.release()
         cfg, d, order = random_cfg(ctx, it + 2, ["filter", "fixedinterval"], qmax=5)
         d = max(d, 2)
@@ -596,7 +596,7 @@ def run(ctx):
         for field, u0s, t0, hs in variations(cfg, d, order, "scalarjac", 2, 6):
             iso_ts1_scalar_jac(ctx, cfg, d, field, u0s, t0, hs)
     lap("iso ts1 scalar jacobian")
-    for it in range(ctx.n(1, 12)):
+    for it in range(ctx.n(2, 12)):
         L.release()
         cfg, d, order = random_cfg(ctx, it, ["filter", "fixedinterval"], qmax=3)
         d = max(d, 2)
